@@ -220,6 +220,24 @@ def part_store(ctx, cfg):
         ctx.observe(k, g[k])
     ctx.claim('C08.store', AND(cl), sig='store',
               info=lambda: dict(v=v, u=u, u2=u2, got=g))
+    # second round: after an update that named its own updater, the variable's
+    # declared updater is used again (also inside one _multi_update list)
+    u3 = ctx.int('u3', -9, 9)
+    st.apply_update(nest({'ovr': u3, 'ovr_null': u3, 'acc': u3, 'set': u3,
+                          'multi': {'_multi_update': [
+                              {'_updater': 'set', '_value': u}, u3]},
+                          'multiset': {'_multi_update': [
+                              {'_updater': 'accumulate', '_value': u}, u3]}},
+                         pre))
+    g2 = get(st.get_value(), pre)
+    cl2 = [EQ(g2['ovr'], u + u3), EQ(g2['ovr_null'], v + u3),
+           EQ(g2['acc'], v + u + u3), EQ(g2['set'], u3),
+           EQ(g2['multi'], u + u3), EQ(g2['multiset'], u3),
+           EQ(g2['untouched'], v)]
+    ctx.claim('C08.store', AND(cl2), sig='store-after-override',
+              info=lambda: dict(v=v, u=u, u2=u2, u3=u3, got=g2))
+    for k in ('ovr', 'ovr_null', 'multi', 'multiset'):
+        ctx.observe(k + '2', g2[k])
 
 
 def _strip(d):
